@@ -564,6 +564,20 @@ fn rollback(state: &mut ApplyState) -> Result<()> {
 /// Apply a renaming plan
 #[allow(clippy::too_many_lines)]
 pub fn apply_plan(plan: &mut Plan, options: &ApplyOptions) -> Result<()> {
+    // Refuse a plan whose id is already recorded BEFORE anything is changed: `add_entry` at the
+    // end of this function would reject it anyway, but only after the tree has been edited.
+    {
+        let renamify_dir = if options.backup_dir.ends_with(&plan.id) {
+            options.backup_dir.parent().and_then(|p| p.parent())
+        } else {
+            options.backup_dir.parent()
+        }
+        .unwrap_or_else(|| Path::new(".renamify"));
+        if History::load(renamify_dir)?.find_entry(&plan.id).is_some() {
+            return Err(anyhow!("History entry with ID {} already exists", plan.id));
+        }
+    }
+
     let mut state = ApplyState::new(options.log_file.clone())?;
 
     state.log(&format!("Starting apply for plan {}", plan.id))?;
